@@ -850,3 +850,81 @@ Proof.
   unfold do_withdraw_reward. destruct (delegation e x v); [|discriminate]. intros H. inversion H; subst.
   destruct (payout_spec e x v) as (_ & A & B). auto.
 Qed.
+
+Ltac splits := repeat match goal with |- _ /\ _ => split end.
+
+(** ** concise statements used by the property files *)
+Theorem delegate_effect e x v c e' :
+  do_delegate e x v c = Some e' ->
+  fst c = usei /\ 0 < snd c /\ is_val v = true /\ snd c <= bal e x usei /\
+  delegated e' x = delegated e x + snd c /\
+  dv e' x v = dv e x v + snd c /\ (forall v', v' <> v -> dv e' x v' = dv e x v') /\
+  (forall y, y <> x -> delegated e' y = delegated e y) /\
+  (withdraw_addr e x <> x -> bal e' x usei = bal e x usei - snd c) /\
+  (forall a d, a <> x -> a <> withdraw_addr e x -> bal e' a d = bal e a d) /\
+  e_unb e' = e_unb e.
+Proof.
+  intros H. apply do_delegate_spec in H.
+  destruct H as (A1 & A2 & A3 & A4 & A5 & A6 & A7 & A8 & A9 & _ & _ & _ & _ & A14 & _ & A16 & _).
+  splits; auto.
+  - unfold dv at 1. rewrite A5. reflexivity.
+  - intros v' Hne. unfold dv. rewrite A6 by congruence. reflexivity.
+  - intros y Hy. unfold delegated. rewrite A8 by exact Hy. reflexivity.
+Qed.
+
+Theorem undelegate_effect e x v c e' :
+  do_undelegate e x v c = Some e' -> DelWf e ->
+  fst c = usei /\ 0 < snd c /\ snd c <= dv e x v /\
+  delegated e' x + snd c = delegated e x /\
+  dv e' x v = dv e x v - snd c /\ (forall v', v' <> v -> dv e' x v' = dv e x v') /\
+  (forall y, y <> x -> delegated e' y = delegated e y) /\
+  e_unb e' = e_unb e ++ [(x, v, snd c, e_now e + e_ut e)] /\
+  (forall a d, a <> withdraw_addr e x -> bal e' a d = bal e a d) /\
+  (forall a d, bal e a d <= bal e' a d) /\ DelWf e'.
+Proof.
+  intros H Hwf. apply do_undelegate_spec in H; [|exact Hwf].
+  destruct H as (A1 & A2 & A3 & _ & A5 & A6 & A7 & A8 & A9 & _ & _ & _ & _ & A14 & A15 & A16).
+  splits; auto.
+  - intros v' Hne. unfold dv. rewrite A6 by congruence. reflexivity.
+  - intros y Hy. unfold delegated. rewrite A8 by exact Hy. reflexivity.
+Qed.
+
+Theorem redelegate_effect e x src dst c e' :
+  do_redelegate e x src dst c = Some e' -> DelWf e ->
+  fst c = usei /\ 0 < snd c /\ snd c <= dv e x src /\ can_redelegate e src = true /\ is_val dst = true /\
+  delegated e' x = delegated e x /\
+  (src <> dst -> dv e' x src = dv e x src - snd c /\ dv e' x dst = dv e x dst + snd c) /\
+  (src = dst -> dv e' x src = dv e x src) /\
+  (forall v', v' <> src -> v' <> dst -> dv e' x v' = dv e x v') /\
+  (forall y, y <> x -> delegated e' y = delegated e y) /\
+  e_unb e' = e_unb e /\ (forall a d, a <> withdraw_addr e x -> bal e' a d = bal e a d) /\ DelWf e'.
+Proof.
+  intros H Hwf. apply do_redelegate_spec in H; [|exact Hwf].
+  destruct H as (A1 & A2 & A3 & A4 & _ & A6 & A7 & A8 & A9 & A10 & A11 & _ & A13 & _ & _ & _ & _ & A18 & _ & A20).
+  splits; auto.
+  - intros Hne. destruct (A7 Hne) as (B1 & B2 & _). auto.
+  - intros v' N1 N2. unfold dv. rewrite A9 by congruence. reflexivity.
+  - intros y Hy. unfold delegated. rewrite A11 by exact Hy. reflexivity.
+Qed.
+
+Theorem slash_effect e v num den unb e' :
+  ev_slash e v num den unb = Some e' ->
+  (forall x v', dv e' x v' <= dv e x v') /\ (forall x v', v' <> v -> dv e' x v' = dv e x v') /\
+  (forall x, delegated e' x <= delegated e x) /\
+  (forall x, all_delegations e' x = [] <-> all_delegations e x = []) /\
+  e_bank e' = e_bank e /\ (DelWf e -> DelWf e').
+Proof.
+  intros H. apply ev_slash_spec in H.
+  destruct H as (_ & _ & _ & A4 & A5 & A6 & A7 & A8 & _ & _ & A11). splits; auto.
+Qed.
+
+Theorem payout_effect e x v :
+  e_del (payout e x v) = e_del e /\ e_unb (payout e x v) = e_unb e /\
+  (forall a d, a <> withdraw_addr e x -> bal (payout e x v) a d = bal e a d) /\
+  (forall a d, bal e a d <= bal (payout e x v) a d).
+Proof. destruct (payout_spec e x v) as ((_ & _ & A & B & _) & C & D). auto. Qed.
+
+Theorem all_delegations_order e x :
+  map fst (all_delegations e x) = filter (fun v => is_some (delegation e x v)) VALS /\
+  delegated e x = sumN (map (dv e x) VALS).
+Proof. split; [exact (all_delegations_vals e x) | exact (delegated_sum e x)]. Qed.
